@@ -270,7 +270,8 @@ func genTrees(r *core.Run, jobs []tlcJob, workersEach int) []treeCase {
 	var cases []treeCase
 	missing := map[string]map[string]int{} // family -> label -> number of shards that miss it
 	shardsOf := map[string]int{}
-	core.Parallel(len(jobs), 5, func(i int) {
+	// the two chains run side by side: at most 3 JVMs each in the thorough tier (6 GB heaps)
+	core.Parallel(len(jobs), r.Pick(5, 3), func(i int) {
 		j := jobs[i]
 		base := fmt.Sprintf("JsSyntaxGen.%s%d.cfg", j.family, j.size)
 		if j.family == "rand" {
